@@ -729,6 +729,15 @@ Q_IDLE = [('E', 'Html'), ('E', 'Markdown'), ('E', 'LaTeX'), ('E', 'XWiki20'),
           ('F', ('block', 'interrupt', 9, 'list')),
           ('N', 'code')]
 Q_CTX = [('X',), ('R', 'mix'), ('R', 'setext_q')]
+# thorough tier, lengths 5 and 6: a sub-alphabet (the full Q alphabet gives 1.2M histories, ~7 h CPU)
+T_IDLE = [('E', 'Html'), ('E', 'Markdown'), ('E', 'LaTeX'),
+          ('M', 'mix', 'Html'),
+          ('P', 'mix'),
+          ('F', ('block', 'read', 0, 'quote')),
+          ('F', ('span', 'find', 4, 'top')),
+          ('F', ('span', 'init', 1, 'quote')),
+          ('N', 'code')]
+T_CTX = Q_CTX
 
 
 def breadth_histories():
@@ -794,7 +803,12 @@ def run(tier, seed, workers):
     compute_baselines(workers)
     base_exc = sorted(repr(k) for k, v in BASE.items() if v.startswith('["exc"'))
     n = 4 if quick else 6
-    hs = enumerate_histories(Q_IDLE, Q_CTX, n)
+    hs = enumerate_histories(Q_IDLE, Q_CTX, 4)
+    n_long = 0
+    if not quick:
+        longer = [h for h in enumerate_histories(T_IDLE, T_CTX, 6) if len(h) >= 5]
+        n_long = len(longer)
+        hs = hs + longer
     lite_max, = (3,) if quick else (4,)
 
     def mode_of(h):
@@ -836,8 +850,8 @@ def run(tier, seed, workers):
     kept = smallest(list(inv.values()) + obs_small, per_class=25, overall=400 - 25 * len(counts))
     kept = sorted(kept, key=fail_sortkey)[:400]
     out.update({
-        'domain': ('HIST(%d): all %d properly bracketed, non-nested histories of length 0..%d over the reduced '
-                   'alphabet idle=%r / in-context=%r (reduction: 4 of the 11 renderers can be entered -- one per '
+        'domain': ('HIST(%d): all %d properly bracketed, non-nested histories of length 0..4 over the reduced '
+                   'alphabet idle=%r / in-context=%r%s (reduction: 4 of the 11 renderers can be entered -- one per '
                    'distinct way of changing the token lists: Html adds 2 tokens, Markdown removes Footnote and '
                    'adds 4, LaTeX adds Math, XWiki20 adds 4 --, the in-history documents are one composite '
                    'document "mix" that exercises every scratch variable and the quote/setext probe, 5 of the %d '
@@ -853,7 +867,9 @@ def run(tier, seed, workers):
                    'renderers x %d documents, [bare parse d], [custom-span-list render d]); RANDOM: %d seeded '
                    'histories of length 5..41 over the full alphabet; fresh-interpreter baselines: %d '
                    'subprocesses, one per observation'
-                   % (n, n_exh, n, Q_IDLE, Q_CTX, len(faults), len(PNAMES), len(PNAMES) * (1 + len(RNAMES)),
+                   % (n, n_exh - n_long, Q_IDLE, Q_CTX,
+                      '' if quick else ' plus all %d histories of length 5 and 6 over the sub-alphabet idle=%r '
+                      '(same in-context ops)' % (n_long, T_IDLE), len(faults), len(PNAMES), len(PNAMES) * (1 + len(RNAMES)),
                       '' if quick else ' and 4', '4' if quick else '5 and 6', len(PNAMES) * 3,
                       len(br), len(faults), len(DNAMES), n_rand, len(BASE))),
         'rule': ('a case is one history run in its own forked child followed by all observations; it is '
